@@ -62,3 +62,50 @@ JOBS['C02'] = {
     ],
 }
 ASSUMPTIONS['C02'] = ASSUMPTIONS['C01'] + ['optimality is established by checking a KKT certificate (primal feasibility, tight active set forming a forest, multipliers >= -2e-4, stationarity residual <= 1e-5); for a strictly convex QP this implies the unique optimum']
+
+# ----------------------------------------------------------------------------------------------- C16
+def geo(name, which, g=1048576, extra=(), **kw):
+    return Job(name, 'C16_geometry.cpp', ['-DWHICH=%d' % which, '-DG=%d' % g] + list(extra), ['libavoid'], **kw)
+B_GEO = 'all integer coordinates in [-2^20, 2^20] (products < 2^53: the double arithmetic of the real code is exact); '
+JOBS['C16'] = {
+    'quick': [
+        geo('vecDir', 1, bounds=B_GEO + 'vecDir vs exact sign of the cross product + antisymmetry/rotation'),
+        geo('segmentIntersect', 2, bounds=B_GEO + 'segmentIntersect vs exact proper crossing + 3 symmetries'),
+        geo('pointOnLine-colinear-inBetween', 3, bounds=B_GEO + 'pointOnLine/colinear/inBetween vs exact open-segment membership'),
+        geo('segmentShapeIntersect', 4, bounds=B_GEO + 'segmentShapeIntersect (both values of the seen-endpoint flag) vs exact definition + reversal symmetry'),
+        geo('inPoly-triangle', 5, bounds=B_GEO + 'inPoly (both countBorder) on all positively oriented non-degenerate triangles'),
+        geo('inPolyGen-triangle', 5, g=1024, extra=['-DGEN'], bounds='coordinates in [-1024,1024]; inPolyGen (and inPoly) on all positively oriented non-degenerate triangles; the sign of each ray-crossing quotient is exact'),
+        geo('inValidRegion-cornerSide', 7, bounds=B_GEO + 'inValidRegion (both IgnoreRegions) and cornerSide vs exact cone/corner definitions'),
+        geo('intersectPoint-class', 8, bounds=B_GEO + 'segmentIntersectPoint / rayIntersectPoint classification vs exact closed-segment intersection'),
+    ],
+    'thorough': [
+        geo('inPoly-quad', 6, g=1024, bounds='coordinates in [-1024,1024]; inPoly/inPolyGen on all convex quadrilaterals with distinct vertices'),
+        geo('intersectPoint-point', 8, g=64, extra=['-DPOINTCHK'], bounds='coordinates in [-64,64]; returned intersection point lies on both lines to 1e-6'),
+    ],
+}
+ASSUMPTIONS['C16'] = ['pointOnLine/inBetween are specified as open-segment tests (strict inequalities), which is what the code and its callers implement, although the source comments say "closed"',
+                      'inPoly is specified for convex polygons whose vertex order makes vecDir(prev,cur,next) >= 0 (libavoid shape convention)']
+
+# ----------------------------------------------------------------------------------------------- C03 / C05 (orthogonal pipeline)
+def scene(name, src, dst, r0, r1=None, extra=(), **kw):
+    d = ['-DSRC=%s' % src, '-DDST=%s' % dst, '-DR0=%s' % r0] + (['-DR1=%s' % r1] if r1 else []) + list(extra)
+    kw.setdefault('bounds', 'orthogonal Router, rectangle(s) %s%s, source in box %s, destination in box %s (x0,x1,y0,y1; all integer points), %s' % (r0, (' and ' + r1) if r1 else '', src, dst, ' '.join(extra) or 'segmentPenalty 50'))
+    return Job(name, 'C03_route.cpp', d, ['libavoid'], **kw)
+SCENES_Q = [
+    scene('across-1rect', '0,15,30,50', '70,85,30,50', '20,20,60,60'),
+    scene('corner-1rect', '0,15,30,50', '30,50,65,80', '20,20,60,60'),
+]
+JOBS['C03'] = {'quick': SCENES_Q, 'thorough': []}
+JOBS['C05'] = {'quick': SCENES_Q, 'thorough': []}
+
+# ----------------------------------------------------------------------------------------------- C17
+def sp(name, nn, ne, extra=(), libs=(), **kw):
+    return Job(name, 'C17_paths.cpp', ['-DNN=%d' % nn, '-DNE=%d' % ne] + list(extra), list(libs), **kw)
+JOBS['C17'] = {
+    'quick': [
+        sp('apsp-n3e3', 3, 3, bounds='all multigraphs on 3 nodes with 3 edges (every endpoint assignment incl. self-loops and parallel edges), integer weights in [0,8]'),
+    ],
+    'thorough': [],
+}
+ASSUMPTIONS['C17'] = []
+JOBS['C05'] = {'quick': [Job('bends-admissible', 'C05_bends.cpp', [], ['libavoid'], bounds='start point in [-8,8]^2, 4 start directions, every orthogonal path with <= 4 bends (turn directions symbolic), segment lengths <= 6')] + SCENES_Q, 'thorough': []}
